@@ -225,6 +225,23 @@ fn corruptions(cx: &mut Cx, p: &RPos, rec: &str, shredder_rec: bool) -> Vec<Corr
             }
             let fch = (b'a' + rng.below(8) as u8) as char;
             out.push(Corruption { text: with_field(rec, 3, &format!("{}{}", fch, r + 1)), want: "InvalidEnPassant", class: "ep:wrong-rank" });
+            // right rank, backed by pawn and empty squares, but contradicted by the checkers: a piece
+            // gives check that is neither the pushed pawn nor a slider uncovered by the pawn leaving
+            // its origin square, so the position cannot have arisen from that double push
+            for file in 0..8u8 {
+                let mut q = p.clone();
+                q.ep = Some(file);
+                if q.structurally_sound().is_ok() {
+                    let them = other(p.stm);
+                    let pawn = idx(file as i32, rel_rank(them, 4));
+                    let origin = idx(file as i32, rel_rank(them, 2));
+                    let k = p.king_sq(p.stm).unwrap();
+                    let contradicted = p.checkers().iter().any(|&c| c != pawn && (crate::refmodel::geom::between(c, k) >> origin) & 1 == 0);
+                    if contradicted {
+                        out.push(Corruption { text: with_field(rec, 3, &write_ep(&q)), want: "InvalidEnPassant", class: "ep:contradicted-by-checkers" });
+                    }
+                }
+            }
             // right rank but unsupported according to the model
             for file in 0..8u8 {
                 let mut q = p.clone();
@@ -408,6 +425,10 @@ pub fn run(cfg: &Cfg) -> Result<Outcome, String> {
                     let v = cx.rng.pick(&["+5", "005", "+0", "0100", "100", "+100", "000", "65535", "+65535", "065535", "-0", "٣"]).to_string();
                     with_field(&b, k, &v)
                 }
+                9 if i % 20 == 9 => {
+                    let b = cx.rng.pick(&seeds).clone();
+                    alias_substitution(&mut cx.rng, &b)
+                }
                 _ => cx.rng.pick(&seeds).clone(),
             };
             arbitrary_one(cx, &s);
@@ -417,6 +438,23 @@ pub fn run(cfg: &Cfg) -> Result<Outcome, String> {
             }
         }
         cx.count_n("arbitrary_strings", n);
+        // every single-character look-alike substitution of a few canonical records
+        let n_rec = if cx.miri { 1 } else { cx.budget(16 * 12, 16 * 300) };
+        for _ in 0..n_rec {
+            let p = if cx.rng.chance(1, 2) { gen::castle_case(&mut cx.rng) } else { gen::sound_random(&mut cx.rng) };
+            if p.structurally_sound().is_err() {
+                continue;
+            }
+            for sh in [true, false] {
+                let rec = write_fen(&p, sh);
+                let mut subs: Vec<String> = Vec::new();
+                for_all_alias_substitutions(&rec, &mut |t| subs.push(t.to_string()));
+                for t in subs {
+                    arbitrary_one(cx, &t);
+                    cx.count("alias-substituted-records");
+                }
+            }
+        }
         // (2) attribution
         let m = cx.budget(40_000, 1_000_000);
         for _ in 0..m {
